@@ -12,13 +12,18 @@ PROFILE == @@PROFILE@@
 
 \* fixed order in which per-key observers are reported
 GKeySeq == << <<"a">>, <<"b">>, <<>> >>
-GKeys == RangeOf(GKeySeq)
+\* PROFILE 1: 31 operations (quick, exhaustive N = 3); PROFILE 2: 53 operations
+\* (exhaustive N = 3 and simulation); PROFILE 3: 2 keys x 2 values, 17 operations
+\* (exhaustive N = 4).
+GKeys == IF PROFILE = 3 THEN { <<"a">>, <<>> } ELSE RangeOf(GKeySeq)
 GVals == IF PROFILE = 1
          THEN { <<"x">>, <<>>, <<"&", "=", "+", "%", " ", "~">> }
+         ELSE IF PROFILE = 3 THEN { <<>>, <<"+", "%", " ", "~">> }
          ELSE { <<"x">>, <<>>, <<"&", "=">>, <<"+", "%", " ", "~">>, <<"%", "2", "6">>, <<"a", " ", "b">> }
 GRaws == IF PROFILE = 1
          THEN { <<"a","=","x","&","a","&","&","=","&","b","=">>,
                 <<"%","z","z","=","%","2","6","+","&","=","x">> }
+         ELSE IF PROFILE = 3 THEN { <<"a","=","x","&","a","&","&","=","&","b","=">> }
          ELSE { <<"a","=","x","&","a","&","&","=","&","b","=">>,
                 <<"%","z","z","=","%","2","6","+","&","=","x">>,
                 <<"a","=","=","b","&","%","2">>,
